@@ -35,7 +35,14 @@ func runLargeCountHistories() {
 			}
 		}
 	}
-	chk.Range(fmt.Sprintf("object reuse over LARGE parity counts: GF(1024) and GF(4096) x every ordered pair (thorough: triple) of parity counts from %v (20 data words, 3 errors) on ONE encoder and ONE decoder object: parity == reference, every word restored", menu), len(hs),
+	// parity counts beyond 1024 (GF(4096) only: the 12-bit Aztec field is the one field long enough)
+	menu2 := []int{1000, 1024, 1025, 1300, 2048, 2049, 3000, 4000}
+	for _, a := range menu2 {
+		for _, b := range menu2 {
+			hs = append(hs, h{5, []int{a, b}, -1})
+		}
+	}
+	chk.Range(fmt.Sprintf("object reuse over LARGE parity counts: GF(4096) x every ordered pair of parity counts from %v, and GF(1024) and GF(4096) x every ordered pair (thorough: triple) of parity counts from %v (20 data words, 3 errors) on ONE encoder and ONE decoder object: parity == reference, every word restored", menu2, menu), len(hs),
 		func(i int) string { return fmt.Sprint(fields[hs[i].f].name, hs[i].seq) },
 		func(l *mc.Local, i int) {
 			x := hs[i]
